@@ -316,3 +316,76 @@ Proof.
     cbn [commit fst snd]. apply send_inv0 in H. destruct H as (b & xs & ->). apply SSend.
   - cbn [fst snd]. apply SListeners.
 Qed.
+
+(* ------------------------------------------------------------------ consequences of the shapes *)
+Definition cancel_of (a : auction) : auction :=
+  set_status (match a_type a with FixedPrice => set_remaining a 0 | Batch => a end) Cancelled.
+
+Definition tx_arel (o : op) (out : outcome) (j : N) (a a' : auction) : Prop :=
+  a' = a
+  \/ (a_status a = StandBy /\ out = Accepted /\ (exists who, o = OTx (MCancel who j)) /\ a' = cancel_of a)
+  \/ (a_status a = Started /\ out = Accepted /\ (exists who bt price coin, o = OTx (MPlaceBid who j bt price coin))
+      /\ exists x, a' = set_remaining a x).
+
+Lemma a_id_cancel_of a : a_id (cancel_of a) = a_id a.
+Proof. unfold cancel_of. destruct (a_type a); reflexivity. Qed.
+
+Lemma tx_auction s o out s' j a :
+  tx_shape s o out s' -> find_auction s j = Some a ->
+  exists a', find_auction s' j = Some a' /\ tx_arel o out j a a'.
+Proof.
+  intros Sh F. destruct Sh as [o c tr s' -> | from to d amt b xs | ls | auth cfee bfee period p
+    | m a0 s' Hc C Hid Hst He Hm Hf | who id a0 s' F0 S0 C | who id bt price coin a0 nb s' F0 S0 B1 B2 C
+    | who id bid price coin a0 b0 p amt s' F0 S0 B C | o id a0 s' T A F0 C ].
+  - exists a. split; [exact F|left; reflexivity].
+  - exists a. split; [exact F|left; reflexivity].
+  - exists a. split; [exact F|left; reflexivity].
+  - exists a. split; [exact F|left; reflexivity].
+  - destruct C as (b & xs & tr & tr' & K & ->). exists a. split; [|left; reflexivity].
+    match goal with |- context [find_auction ?s1 j] => rewrite (find_auction_conv_app s s1 a0 j eq_refl) end.
+    rewrite F. reflexivity.
+  - destruct C as (b & xs & tr & K & ->). fold (cancel_of a0).
+    match goal with |- context [find_auction ?s1 j] => rewrite (find_auction_conv_put s s1 (cancel_of a0) j eq_refl) end.
+    rewrite a_id_cancel_of, F.
+    pose proof (find_auction_some _ _ _ F0) as [_ Hid].
+    destruct (N.eqb j (a_id a0)) eqn:E.
+    + neqb. assert (a0 = a) by congruence. subst a0. exists (cancel_of a). split; [reflexivity|].
+      right; left. repeat split; try assumption. exists who. congruence.
+    + exists a. split; [reflexivity|left; reflexivity].
+  - destruct C as (b & xs & tr & s2 & K & [->|(x & ->)] & ->).
+    + exists a. split; [exact F|left; reflexivity].
+    + match goal with |- context [find_auction ?s1 j] =>
+        rewrite (find_auction_conv_put s s1 (set_remaining a0 x) j eq_refl) end.
+      rewrite F. cbn [a_id set_remaining].
+      pose proof (find_auction_some _ _ _ F0) as [_ Hid].
+      destruct (N.eqb j (a_id a0)) eqn:E.
+      * neqb. assert (a0 = a) by congruence. subst a0. exists (set_remaining a x). split; [reflexivity|].
+        right; right. repeat split; try assumption; [|exists x; reflexivity].
+        exists who, bt, price, coin. congruence.
+      * exists a. split; [reflexivity|left; reflexivity].
+  - destruct C as (b & xs & tr & K & ->). exists a. split; [exact F|left; reflexivity].
+  - destruct C as (tr & al & -> & K). exists a. split; [exact F|left; reflexivity].
+Qed.
+
+Lemma target_create s m : is_create m = true -> target s (OTx m) = Some (st_aseq s).
+Proof. destruct m; cbn; intros H; try discriminate H; reflexivity. Qed.
+
+Lemma tx_frame s o out s' tid : tx_shape s o out s' -> target s o = Some tid -> frame tid s s'.
+Proof.
+  intros Sh T. destruct Sh as [o c tr s' -> | from to d amt b xs | ls | auth cfee bfee period p
+    | m a0 s' Hc C Hid Hst He Hm Hf | who id a0 s' F0 S0 C | who id bt price coin a0 nb s' F0 S0 B1 B2 C
+    | who id bid price coin a0 b0 p amt s' F0 S0 B C | o id a0 s' T0 A F0 C ];
+    try discriminate T.
+  - frame_tac.
+  - rewrite (target_create s m Hc) in T. injection T as <-.
+    destruct C as (b & xs & tr & tr' & K & ->). frame_tac.
+  - cbn [target] in T. injection T as <-. destruct C as (b & xs & tr & K & ->).
+    pose proof (find_auction_some _ _ _ F0) as [_ Hid]. frame_tac.
+    fold (cancel_of a0). rewrite a_id_cancel_of. exact Hid.
+  - cbn [target] in T. injection T as <-.
+    pose proof (find_auction_some _ _ _ F0) as [_ Hid].
+    destruct C as (b & xs & tr & s2 & K & [->|(x & ->)] & ->); frame_tac.
+  - cbn [target] in T. injection T as <-. destruct C as (b & xs & tr & K & ->).
+    pose proof (find_bid_some _ _ _ _ B) as (_ & Hb & _). frame_tac.
+  - rewrite T0 in T. injection T as <-. destruct C as (tr & al & -> & K). frame_tac2.
+Qed.
